@@ -254,3 +254,118 @@ pub fn plan_json(plan: &ReplicaPlan) -> Value {
     }
     json!(plan.steps.iter().map(|(i, s)| format!("op{}@src{}", i, s)).collect::<Vec<_>>())
 }
+
+// ------------------------------------------------------------------------------------------------------------------
+// Exhaustive small scope shared by C03 (`small-scope-triples`) and C05 (`small-scope-pairs`): every pool of 1-3
+// operations with distinct stamps out of a universe of 4-5 stamps from two origins, keys {1,2}, insert / delete;
+// every replica such a pool can build under the mode's rule (Window / Gaps: every ordered subset; Prefix: every
+// per-origin gap-free prefix in stamp order) with every assignment of sources.
+
+/// which: 0 = Window (all stamps within 1000 s, incl. a (time, counter) tie across the nodes), 1 = Prefix (stamps over
+/// more than two forgiveness periods), 2 = Gaps (exact 1 h grid; outside the repair precondition, C05 exactness only)
+pub fn small_universe(which: usize) -> Vec<crate::model::Stamp> {
+    use crate::model::Stamp;
+    let s = |secs: u64, counter: u16, node: u8| Stamp { secs, frac: 0, counter, node };
+    match which {
+        0 => vec![s(5_000, 0, 1), s(5_000, 0, 2), s(5_000, 1, 1), s(6_000, 0, 2)],
+        1 => vec![s(5_000, 0, 1), s(5_001, 0, 2), s(8_700, 0, 1), s(8_800, 0, 2), s(12_400, 0, 1)],
+        _ => vec![s(100_000, 0, 1), s(103_600, 0, 1), s(103_600, 0, 2), s(107_200, 0, 1), s(107_201, 0, 2)],
+    }
+}
+
+pub struct Small {
+    pub pools: Vec<Pool>,
+    /// plans[pool][variant]: 0 = one source, 1 = two sources but one source per replica, 2 = every source assignment
+    pub plans: Vec<[Vec<ReplicaPlan>; 3]>,
+}
+
+fn arrangements(k: usize) -> Vec<Vec<usize>> {
+    // every ordered selection of distinct indices below k, the empty one included
+    let mut out = vec![vec![]];
+    let mut frontier: Vec<Vec<usize>> = vec![vec![]];
+    for _ in 0..k {
+        let mut next = vec![];
+        for f in &frontier {
+            for i in 0..k {
+                if !f.contains(&i) {
+                    let mut g = f.clone();
+                    g.push(i);
+                    next.push(g);
+                }
+            }
+        }
+        out.extend(next.iter().cloned());
+        frontier = next;
+    }
+    out
+}
+
+fn with_sources(seqs: &[Vec<usize>], variant: usize) -> Vec<ReplicaPlan> {
+    let mut out = vec![];
+    for s in seqs {
+        match variant {
+            0 => out.push(ReplicaPlan { steps: s.iter().map(|i| (*i, 0)).collect() }),
+            1 => {
+                out.push(ReplicaPlan { steps: s.iter().map(|i| (*i, 0)).collect() });
+                if !s.is_empty() {
+                    out.push(ReplicaPlan { steps: s.iter().map(|i| (*i, 1)).collect() });
+                }
+            },
+            _ => {
+                for bits in 0..(1usize << s.len()) {
+                    out.push(ReplicaPlan { steps: s.iter().enumerate().map(|(j, i)| (*i, (bits >> j) & 1)).collect() });
+                }
+            },
+        }
+    }
+    out
+}
+
+fn build_small(which: usize) -> Small {
+    let uni = small_universe(which);
+    let mode = [Mode::Window, Mode::Prefix, Mode::Gaps][which];
+    let mut pools = vec![];
+    for mask in 1u32..(1 << uni.len()) {
+        let k = mask.count_ones() as usize;
+        if k > 3 {
+            continue;
+        }
+        let stamps: Vec<_> = (0..uni.len()).filter(|i| mask & (1 << i) != 0).map(|i| uni[i]).collect();
+        for bits in 0..(1u32 << (2 * k)) {
+            let mut ops: Vec<SetOp> = stamps
+                .iter()
+                .enumerate()
+                .map(|(j, st)| SetOp { key: 1 + ((bits >> (2 * j)) & 1) as u64, stamp: *st, delete: (bits >> (2 * j + 1)) & 1 == 1 })
+                .collect();
+            ops.sort_by_key(|o| o.stamp);
+            pools.push(Pool { mode, ops, nodes: vec![1, 2] });
+        }
+    }
+    let mut plans = vec![];
+    for pool in &pools {
+        let k = pool.ops.len();
+        let seqs: Vec<Vec<usize>> = match mode {
+            Mode::Window | Mode::Gaps => arrangements(k),
+            Mode::Prefix => {
+                let of = |node: u8| pool.ops.iter().enumerate().filter(|(_, o)| o.stamp.node == node).map(|(i, _)| i).collect::<Vec<_>>();
+                let (n1, n2) = (of(1), of(2));
+                let mut v = vec![];
+                for c1 in 0..=n1.len() {
+                    for c2 in 0..=n2.len() {
+                        let mut s: Vec<usize> = n1[..c1].iter().chain(n2[..c2].iter()).copied().collect();
+                        s.sort(); // pool is sorted by stamp: index order = stamp order
+                        v.push(s);
+                    }
+                }
+                v
+            },
+        };
+        plans.push([with_sources(&seqs, 0), with_sources(&seqs, 1), with_sources(&seqs, 2)]);
+    }
+    Small { pools, plans }
+}
+
+pub fn small(which: usize) -> &'static Small {
+    static T: [std::sync::OnceLock<Small>; 3] = [std::sync::OnceLock::new(), std::sync::OnceLock::new(), std::sync::OnceLock::new()];
+    T[which.min(2)].get_or_init(|| build_small(which.min(2)))
+}
